@@ -51,11 +51,10 @@ Section Checker.
   Definition laws_ok (ts0 nb ob ot : list tree) (values : list (list N * list oval)) : bool :=
     forallb (fun pv => match fst pv with [] => true | _ => law_ok ts0 nb ob ot (fst pv) (snd pv) end) values.
 
-  (** Disjoint changes of three resolved trees: at every listed path the commit left the
-      path alone, or the parents agree, or all three are directories (or absent). *)
-  Definition disjoint_at (b b' t : tree) (p : list N) : bool :=
-    oval_eqb (value_at p t) (value_at p b) || oval_eqb (value_at p b') (value_at p b)
-    || is_tree [value_at p b'; value_at p b; value_at p t].
+  (** Side condition of the there-and-back law for three resolved trees (Model/Rebase.v):
+      well-formed trees whose changes touch disjoint entries. *)
+  Definition back_applies (b b' t : tree) : bool :=
+    wfb 64 b && wfb 64 t && disjb accept 64 b' b t.
 End Checker.
 
 Definition okb (c : case) : bool :=
@@ -71,8 +70,7 @@ Definition okb (c : case) : bool :=
         laws_ok (c_accept c) (map (dec tab) (c_unresolved c)) nbt obt ot (dec_values c)
         && match nbt, obt, ot with
            | [b'], [b], [t] =>
-               negb (forallb (fun pv => disjoint_at b b' t (fst pv)) (dec_values c))
-               || trees_eqb (map (dec tab) back) [t]
+               negb (back_applies (c_accept c) b b' t) || trees_eqb (map (dec tab) back) [t]
            | _, _, _ => true
            end
   | _, _, _, _ => false
